@@ -589,7 +589,7 @@ func (self *LocalJobManager) Enqueue(shellCmd string, argv []string,
 
 		if sem := self.vmemMBSem; sem != nil {
 			// Acquire vmem
-			vmem := int64(res.VMemGB) * 1024
+			vmem := int64(math.Ceil(res.VMemGB * 1024))
 			if err := sem.Acquire(vmem); err != nil {
 				util.LogError(err, "jobmngr",
 					"%s requested %d GB of virtual memory, but the "+
